@@ -397,6 +397,49 @@ fn lock_part() -> (u64, Vec<(String, String)>) {
     (n, bad)
 }
 
+const LARGE_UNIT: &str = "ab\x1b[38;5;9mc\x1b[44;1mé\x1b[0m\n";
+
+fn run_large(n: usize, shift: usize, op: Op) -> Result<(), String> {
+    let unit = LARGE_UNIT.as_bytes();
+    let chunk: Vec<u8> = unit.iter().cycle().skip(shift).take(n).copied().collect();
+
+        let sh = Rc::new(RefCell::new(Shared::default()));
+        let mut stream = WinconStream::new(Console(sh.clone()));
+        if op == Op::Write {
+            let mut rest = &chunk[..];
+            let mut rounds = 0;
+            while !rest.is_empty() {
+                rounds += 1;
+                let k = stream.write(rest).map_err(|e| format!("write failed on a console that accepts everything: {e}"))?;
+                if k == 0 || k > rest.len() || rounds > 100000 {
+                    return Err(format!("write returned {k} of {} (call {rounds})", rest.len()));
+                }
+                rest = &rest[k..];
+            }
+        } else if op == Op::Fmt && std::str::from_utf8(&chunk).is_err() {
+            // a cut inside the two-byte character: write! takes text only
+            let s = String::from_utf8_lossy(&chunk).into_owned();
+            write!(stream, "{s}").map_err(|e| format!("write! failed on a console that accepts everything: {e}"))?;
+            let mut model = RunModel::default();
+            let exp = expected_cells(&mut model, s.as_bytes());
+            let got = sh.borrow().cells.clone();
+            if got != exp {
+                return Err(format!("console colours differ: write! of {} bytes (unit shifted by {shift}): first difference at cell {:?}", s.len(), got.iter().zip(exp.iter()).position(|(a, b)| a != b)));
+            }
+            return Ok(());
+        } else {
+            apply(&mut stream, op, &chunk).map_err(|e| format!("{op:?} failed on a console that accepts everything: {e}"))?;
+        }
+        let mut model = RunModel::default();
+        let exp = expected_cells(&mut model, &chunk);
+        let got = sh.borrow().cells.clone();
+        if got != exp {
+            let what = if got.len() != exp.len() { "text handed to the console differs" } else { "console colours differ" };
+            return Err(format!("{what}: {op:?} of {n} bytes (unit shifted by {shift}): console got {} cells, expected {}, first difference at cell {:?}", got.len(), exp.len(), got.iter().zip(exp.iter()).position(|(a, b)| a != b)));
+        }
+        Ok(())
+    }
+
 fn clause_of(m: &str) -> String {
     for (pat, c) in [
         ("panic:", "panic"),
@@ -566,6 +609,36 @@ fn main_check(ctx: &Ctx) -> Outcome {
         out.push_part(json!({"system":"console: every sequence of two attribute groups from the default state","sequences":pairs.len()}));
     }
 
+    // large buffers: sizes around 8 KiB (std's console writers cut there) and beyond, an escape sequence or a
+    // multi-byte character straddling every offset near the cut, through every entry point driven by the standard protocol
+    {
+        let unit = LARGE_UNIT.as_bytes();
+        let sizes: Vec<usize> = if quick { vec![8191, 8192, 8193, 16385, 20000] } else { vec![4095, 4096, 4097, 8191, 8192, 8193, 16383, 16384, 16385, 20000, 65535, 65537, 131073] };
+        let cases: Vec<(usize, usize, Op)> = sizes.iter().flat_map(|&n| (0..unit.len()).flat_map(move |sh| OPS.iter().map(move |&op| (n, sh, op)))).collect();
+        let bad = std::sync::Mutex::new(Vec::<Finding>::new());
+        cases.par_iter().for_each(|&(n, shift, op)| {
+            let r = guard(|| run_large(n, shift, op))
+            .and_then(|r| r);
+            if let Err(m) = r {
+                let mut v = bad.lock().unwrap();
+                if v.len() < 40 {
+                    v.push(Finding {
+                        system: format!("anstream::WinconStream/{op:?}/large-buffers"),
+                        clause: clause_of(&m),
+                        case: vec![format!("{n} bytes, unit shifted by {shift}")],
+                        message: m,
+                        replay: json!({"kind":"large","n":n,"shift":shift,"op":format!("{op:?}")}),
+                    });
+                }
+            }
+        });
+        let mut b = bad.into_inner().unwrap();
+        b.sort_by_key(|f| f.key());
+        b.truncate(8);
+        out.findings.extend(b);
+        out.push_part(json!({"system":"console: large buffers through write_all / write loop / write! / write_vectored loop","sizes":sizes,"shifts":unit.len(),"cases":cases.len()}));
+    }
+
     // E2
     let maxlen = if quick { 4 } else { 5 };
     let k = if quick { 2 } else { 3 };
@@ -671,6 +744,10 @@ fn replay(v: &serde_json::Value) -> Result<(), String> {
                 return Err(format!("console got {:?}, expected {:?}", summarize(&got), summarize(&exp)));
             }
             Ok(())
+        }
+        "large" => {
+            let op = OPS.into_iter().find(|o| Some(format!("{o:?}").as_str()) == v["op"].as_str()).ok_or("unknown op")?;
+            run_large(v["n"].as_u64().unwrap_or(0) as usize, v["shift"].as_u64().unwrap_or(0) as usize, op)
         }
         k => Err(format!("unknown replay kind {k}")),
     }
